@@ -1,5 +1,5 @@
 """Registry: for each property, which correspondences, oracles and budgets make up its check."""
-from . import i3_card, i1_logic
+from . import i3_card, i1_logic, i5_comb
 
 TB_COMMON = [
     "Lean 4.33.0 kernel (thorough tier: re-checked with leanchecker)",
@@ -10,6 +10,14 @@ TB_COMMON = [
 ]
 
 REGISTRY = {
+    "C13": {
+        "correspondence": [i5_comb.corr_comb],
+        "oracle": [i5_comb.oracle_c13],
+        "oracle_budget": {"quick": 25, "thorough": 300},
+        "replay": lambda ctx, r: (lambda x: ctx.fail("C13: " + x, r) if x else None)(i5_comb.c13_case(r["kind"], r["params"])),
+        "trusted_base": TB_COMMON + ["the continuation machine with its memo table is tied to the model's clean recursion by correspondence only (not by a refinement proof)"],
+        "assumptions": ["parameters in range: sizes > 0, m <= n, index below the reported count"],
+    },
     "C11": {
         "correspondence": [i1_logic.corr_logic],
         "oracle": [i1_logic.oracle_c11],
